@@ -91,7 +91,8 @@ func c08GenField(r *core.Rand, name string) c08Field {
 func c08FirstLine(r *core.Rand) string {
 	l := gen.ValueLine(r)
 	if r.Chance(1, 6) {
-		l = r.Pick([]string{" ", "\t", "   ", " \t"}) + l
+		// (also the white space that is not a blank or a tab: readers strip all of it around a first line)
+		l = r.Pick([]string{" ", "\t", "   ", " \t", " ", "\t", "\f", "\v", "\u00a0", "\u3000", "\u0085 "}) + l
 	}
 	return l
 }
